@@ -39,6 +39,12 @@ def one(v, explicit, cls, has_type):
             w.loop.run_until_complete(proxy.send(['setup_done', (), {}]))
             w.loop.run_until_complete(proxy.send(['step', (0, {}, 5), {}]))
             w.loop.run_until_complete(proxy.send(['get_data', ({},), {}]))
+            # a step in which the simulator itself fails: the request reaches it once, in the form valid for its version,
+            # and its own error is what the caller sees
+            try:
+                w.loop.run_until_complete(proxy.send(['step', (7, {}, 9), {}])); obs['error'] = 'none'
+            except BaseException as e:
+                obs['error'] = f'{type(e).__name__}:{e}'
             obs['calls'] = list(CALLS)
             obs['type'] = proxy.meta.get('type', 'absent')
     finally:
@@ -55,8 +61,9 @@ def spec(vv, ev, compliant, has_type):
     if (major, minor) >= (2, 2): calls.append(('setup_done',))
     calls.append(('step', 3 if major >= 3 else 2))
     calls.append(('get_data', 0))
+    calls.append(('step', 3 if major >= 3 else 2))
     typ = 'event-based' if has_type else ('time-based' if major < 3 else 'absent')
-    return {'start': 'started', 'calls': calls, 'type': typ}
+    return {'start': 'started', 'calls': calls, 'type': typ, 'error': 'ValueError:boom at 7'}
 
 
 def run(out, info, tier, seed):
@@ -94,6 +101,7 @@ def run(out, info, tier, seed):
                 x = model.ask(f"X_DELIVER {b} {c} step 3"); mcalls.append(('step', int(x.split()[1])))
                 x = model.ask(f"X_DELIVER {b} {c} other 7")
                 if x == 'other 7': mcalls.append(('get_data', 0))
+                x = model.ask(f"X_DELIVER {b} {c} step 3"); mcalls.append(('step', int(x.split()[1])))
                 t = model.ask(f"X_TYPE {c} {'1 1' if has_type else '0'}")
                 mtyp = {'absent': 'absent', '0': 'time-based', '1': 'event-based'}[t]
                 if mcalls != obs['calls'] or mtyp != obs['type']:
@@ -105,7 +113,7 @@ def run(out, info, tier, seed):
     for v in violations[:1]: out.violations.append(v)
     out.coverage = {'evaluations': n, 'distinct_nontrivial': nontriv, 'exhaustive': True, 'traces_validated_against_impl': n if model else 0,
                     'rule': f'version strings {VERSIONS} (None = api_version absent) x explicit api_version {{none, same, different, a proper prefix of the announced one, the announced one with one more component}} x stub with {{v3, pre-v3}} signatures x type given or not, in-process; '
-                            'for accepted ones the requests setup_done/step/get_data are sent through the adapter chain and what reaches the simulator is recorded; non-trivial = accepted with an adapter or a patch level',
+                            'for accepted ones the requests setup_done/step/get_data and a step in which the simulator raises a ValueError are sent through the adapter chain and what reaches the simulator is recorded; non-trivial = accepted with an adapter or a patch level',
                     'samples': samples, 'monitor_failures': len(violations), 'correspondence_mismatches': len(mism)}
 
 
